@@ -30,6 +30,15 @@ func sortedKeys(m map[int]*multiplexing.Stream) []int {
 	return out
 }
 
+func sortedCalls(m map[int]*blockedCall) []int {
+	out := make([]int, 0, len(m))
+	for k := range m {
+		out = append(out, k)
+	}
+	sort.Ints(out)
+	return out
+}
+
 func sortedPend(m map[int]*pendingOpen) []*pendingOpen {
 	ks := make([]int, 0, len(m))
 	for k := range m {
@@ -142,6 +151,15 @@ func account(c *vlib.Ctx, r *recorder) {
 	}
 }
 
+func hasFollow(s scriptIn) bool {
+	for _, k := range s.Kinds {
+		if strings.Contains(k, "follow") {
+			return true
+		}
+	}
+	return false
+}
+
 func parallelism() int {
 	n := runtime.NumCPU()
 	if n > 12 {
@@ -180,9 +198,11 @@ func runStreams(c *vlib.Ctx) error {
 	scripts := scriptsFromBehaviours(c)
 	limit := argInt(c, "scripts", 1<<30)
 	if len(scripts) > limit {
-		// deterministic sample
+		// seeded sample; behaviours in which a stream is used again after a deadline ended a
+		// blocked call ("follow" kinds) are few and always kept
 		rng := rand.New(rand.NewSource(c.Seed))
 		rng.Shuffle(len(scripts), func(i, j int) { scripts[i], scripts[j] = scripts[j], scripts[i] })
+		sort.SliceStable(scripts, func(i, j int) bool { return hasFollow(scripts[i]) && !hasFollow(scripts[j]) })
 		scripts = scripts[:limit]
 	} else {
 		c.SetExtra("all_exported_behaviours_replayed", true)
